@@ -230,13 +230,14 @@ def parent_main(pid, tier, seed):
             unknown.setdefault(v['key'], []).append(v)
     rc = 0
     lines = []
-    os.makedirs(os.path.join(VERIF_DIR, 'replays'), exist_ok=True)
-    for fn in os.listdir(os.path.join(VERIF_DIR, 'replays')):
+    replay_dir = os.environ.get('VERIF_REPLAY_DIR') or os.path.join(VERIF_DIR, 'replays')
+    os.makedirs(replay_dir, exist_ok=True)
+    for fn in os.listdir(replay_dir):
         if fn.startswith(pid + '-'):
-            os.unlink(os.path.join(VERIF_DIR, 'replays', fn))
+            os.unlink(os.path.join(replay_dir, fn))
     for key, vs in sorted(unknown.items()):
         for j, v in enumerate(vs[:2]):
-            path = os.path.join('replays', '%s-%s-%d.json' % (pid, _safe(key), j))
+            path = os.path.join(os.path.relpath(replay_dir, VERIF_DIR), '%s-%s-%d.json' % (pid, _safe(key), j))
             with open(os.path.join(VERIF_DIR, path), 'w') as f:
                 json.dump(dict(property=pid, key=key, what=v['what'], case=v['case'],
                                detail=v['detail'], seed=seed, tier=tier), f, indent=1)
@@ -282,8 +283,9 @@ def parent_main(pid, tier, seed):
     ev = dict(property_id=pid, tier=tier, seed=seed, level=meta.get('LEVEL', 'exploration'),
               coverage=cov, assumptions=meta.get('ASSUMPTIONS', []), wall_s=round(wall, 2),
               violations=sum(vio_count.get(k, 0) for k in unknown))
-    os.makedirs(os.path.join(VERIF_DIR, 'evidence'), exist_ok=True)
-    with open(os.path.join(VERIF_DIR, 'evidence', pid + '.json'), 'w') as f:
+    evid_dir = os.environ.get('VERIF_EVIDENCE_DIR') or os.path.join(VERIF_DIR, 'evidence')
+    os.makedirs(evid_dir, exist_ok=True)
+    with open(os.path.join(evid_dir, pid + '.json'), 'w') as f:
         json.dump(ev, f, indent=1, sort_keys=True)
     print('%s %s seed=%d: %d evaluations, %d distinct classes, %.1fs, verdict: %s' % (
         pid, tier, seed, merged.evaluations, len(merged.classes), wall, cov['verdict']))
